@@ -46,6 +46,11 @@ func caseC01(c *Ctx) {
 	p.W["RegisterType"] = 6
 	p.Late = lateKeys(c.R, 20)
 	p.Zero("QueryCheck", "CacheRegister", "CacheUnregister")
+	if c.Case%5 == 2 {
+		// batch moves driven through registered filters, across resets that retire and re-use relation tables
+		p.W["CacheRegister"], p.W["CacheUnregister"], p.W["Reset"] = 6, 1, 3
+		p.PCached = 0.8
+	}
 	o := Opts{Model: true, Sweep: true, Inv: true, Track: true, AllIDs: c.Case%4 == 0, NoTrans: true}
 	s := RunHistory(c.R, cfg, o, p)
 	n := s.Cov.N
